@@ -6,6 +6,15 @@ open Drv (Machine)
 structure MSt where
   cfg : Cfg
   st : _root_.C47.St
+  /-- split schedule (race cases): requests the handlers have reported but the behaviour has not
+  seen yet (peer, connection, renewed) -/
+  chan : List (Nat × Nat × Bool) := []
+  /-- requests the behaviour has answered and the handlers have not completed yet
+  (peer, connection, renewed, accepted) -/
+  inflight : List (Nat × Nat × Bool × Bool) := []
+  /-- reservations that expired with no request in flight: `ReservationTimedOut` queued -/
+  tmo : List (Nat × Nat) := []
+  expired : Bool := false
 
 def parseCfg (cfg : List String) : Cfg :=
   -- [idx, class, nt, max_res, max_res_peer, max_circ, max_circ_peer, npeers]
@@ -49,7 +58,7 @@ def parseC (tok : String) : Option (List Circuit) :=
     | _ => none
 
 def machine : Machine MSt Cfg where
-  init cfg := ⟨parseCfg cfg, _root_.C47.St.empty⟩
+  init cfg := { cfg := parseCfg cfg, st := _root_.C47.St.empty }
   specInit cfg := parseCfg cfg
   op m args :=
     let v := Variant.repaired
@@ -61,6 +70,8 @@ def machine : Machine MSt Cfg where
       | some "closeconn" => fin (step v m.cfg m.st (.closed p c)).1 "ok"
       | _ => (m, "bad-op")
     | [_, some p, some c, some r] =>
+      if args.head? == some "rbegin" then
+        ({ m with chan := m.chan ++ [(p, c, r == 1)] }, "sent " ++ snap m.st) else
       if args.head? != some "reserve" then (m, "bad-op") else
       match step v m.cfg m.st (.resReq p c (r == 1) true) with
       | (st1, .resAccept) =>
@@ -88,7 +99,38 @@ def machine : Machine MSt Cfg where
     | [_, some id] =>
       if args.head? != some "closecirc" then (m, "bad-op") else
       fin (step v m.cfg m.st (.circRemove id)).1 "ok"
-    | _ => (m, "bad-op")
+    | _ =>
+      -- the split schedule of the race cases; the handler is the repaired one: a reservation with
+      -- a request in flight is not reported as timed out
+      match args with
+      | ["rbegin", p, c, r] =>
+        match p.toNat?, c.toNat?, r.toNat? with
+        | some p, some c, some r => ({ m with chan := m.chan ++ [(p, c, r == 1)] }, "sent " ++ snap m.st)
+        | _, _, _ => (m, "bad-op")
+      | ["expire"] =>
+        let busy (e : Nat × Nat × Bool) : Bool :=
+          m.chan.any (fun q => q.1 == e.1 && q.2.1 == e.2.1) || m.inflight.any (fun q => q.1 == e.1 && q.2.1 == e.2.1)
+        let t := (m.st.conns.filter (fun e => e.2.2 && !busy e)).map (fun e => (e.1, e.2.1))
+        ({ m with tmo := m.tmo ++ t, expired := true }, "ok " ++ snap m.st)
+      | ["rdeliver"] =>
+        let (st1, infl) := m.chan.foldl (fun (acc : _root_.C47.St × List (Nat × Nat × Bool × Bool)) q =>
+          match step v m.cfg acc.1 (.resReq q.1 q.2.1 q.2.2 true) with
+          | (st', .resAccept) => (st', acc.2 ++ [(q.1, q.2.1, q.2.2, true)])
+          | (st', _) => (st', acc.2 ++ [(q.1, q.2.1, q.2.2, false)])) (m.st, m.inflight)
+        let st2 := m.tmo.foldl (fun st q => (step v m.cfg st (.resTimedOut q.1 q.2)).1) st1
+        ({ m with st := st2, chan := [], inflight := infl, tmo := [] },
+         "+".intercalate ("delivered" :: m.tmo.map (fun _ => "timedout")) ++ " " ++ snap st2)
+      | ["rend"] =>
+        let (st1, outs) := m.inflight.foldl (fun (acc : _root_.C47.St × List String) q =>
+          if q.2.2.2 then ((step v m.cfg acc.1 (.resAccepted q.1 q.2.1)).1, acc.2 ++ [s!"acc{if q.2.2.1 then 1 else 0}"])
+          else if m.expired && q.2.2.1 then
+            -- a denied renewal of an expired reservation: the timeout is reported after the denial
+            ((step v m.cfg acc.1 (.resTimedOut q.1 q.2.1)).1, acc.2 ++ ["deny", "timedout"])
+          else (acc.1, acc.2 ++ ["deny"])) (m.st, [])
+        let sorted := sortBy (fun (a b : String) => a < b) outs
+        ({ m with st := st1, inflight := [] },
+         (if sorted.isEmpty then "none" else "+".intercalate sorted) ++ " " ++ snap st1)
+      | _ => (m, "bad-op")
   spec cfg _ outs :=
     match outs with
     | "panic" :: _ => (cfg, "FAIL:panic")
